@@ -350,6 +350,7 @@ type hLockListener struct {
 	k    int
 	q    bool
 	seen int
+	comp *Mask // component restriction (nil: none)
 }
 
 func (l *hLockListener) Notify(w *World, e EntityEvent) {
@@ -361,14 +362,28 @@ func (l *hLockListener) Notify(w *World, e EntityEvent) {
 	l.x.locks = 0
 }
 func (l *hLockListener) Subscriptions() event.Subscription { return event.EntityRemoved }
-func (l *hLockListener) Components() *Mask                 { return nil }
+func (l *hLockListener) Components() *Mask                 { return l.comp }
 
 func HC09_Listener() {
 	x := hSweepWorld()
 	k := vChoice("entry", hNEntry)
 	l := &hLockListener{x: x, k: k, q: vChoice("q", 2) == 1}
 	x.w.SetListener(l)
-	if vChoice("batch", 2) == 0 {
+	if vChoice("restricted", 2) == 1 {
+		// only removals touching component A are subscribed; tables without A are visited silently
+		x.w.SetListener(nil)
+		x.opNewEntityWith(1 << uB) // a table created after the subscribed ones
+		m := All(x.id[uA])
+		l.comp = &m
+		x.w.SetListener(l)
+		f := x.mkFilter(fAll, Entity{})
+		n := x.w.Batch().RemoveEntities(f.f)
+		vAssert(n == 5 && l.seen == 3, "one removal event per removed entity with a subscribed component")
+		for j := 0; j < x.n; j++ {
+			x.alive[j] = false
+		}
+		x.pKnown = false
+	} else if vChoice("batch", 2) == 0 {
 		x.w.RemoveEntity(x.h[3])
 		x.alive[3] = false
 		vAssert(l.seen == 1, "one removal event")
